@@ -172,7 +172,7 @@ Theorem step_flag_sound : forall S e i r r', net_ok S -> snd (step S e) = false 
 Proof.
   intros S e i r r' [Hnd Hall] Hf Gi Gi'.
   assert (Hsame : r' = r -> forall a, In a (advert (rrib r)) <-> In a (advert (rrib r'))) by (intros ->; tauto).
-  destruct e as [x j | x j adv | x j | x j | x | x]; simpl in *.
+  destruct e as [x j | x j adv | x j adv | x j | x j | x | x]; simpl in *.
   - destruct (getr S x) as [rx|] eqn:Gx; [|(simpl in *; apply Hsame; congruence)].
     destruct (getr S j) as [rj|] eqn:Gj; [|(simpl in *; apply Hsame; congruence)].
     destruct (memN j (nbrs rx)); [|(simpl in *; apply Hsame; congruence)].
@@ -192,6 +192,7 @@ Proof.
     destruct (i =? x) eqn:E; [|(simpl in *; apply Hsame; congruence)].
     inversion Gi'; subst r'. simpl. assert (i = x) by lia. subst i. rewrite Gx in Gi. inversion Gi; subst rx.
     apply Hu. exact Hf.
+  - destruct (getr S x); simpl in *; apply Hsame; congruence.
   - destruct (getr S x) as [rx|] eqn:Gx; [|(simpl in *; apply Hsame; congruence)].
     destruct (memN j (nbrs rx) || (x =? j)); [(simpl in *; apply Hsame; congruence)|]. simpl in *.
     destruct (getr_some _ _ _ Gx) as [Ix Sx].
